@@ -504,6 +504,14 @@ def rule_tentative(ck):
             ok = a.get(lo0) == "lb" and a.get(hi0) == "ub" and all(v in ("station_index", "schedule", "lb", "ub") for v in a.values())
             ck.require(ok, "C07.R3", mf, r.expr, ok="bisect [lb, ub] at the station", bad=f"bisection called with {a}", sink="mfr:bisect-args")
         else:
+            # recognised and wrong: the value is built from the interval's ends / a constant as this function knows them (an unproved end, a
+            # midpoint, lb itself).  A local the rule cannot trace to those (the running lower end of a search written as a loop, say) is a
+            # search shape it does not read: no verdict
+            ex_ = ml.expand(r.expr, r)
+            names_ = {x.id for x in ast.walk(ex_) if isinstance(x, ast.Name)}
+            opaque_ = any(isinstance(x, ast.Call) and call_name(x) in ("__phi__", "__loop__", "__unk__", "__gamma__") for x in ast.walk(ex_))
+            if opaque_ or not names_ <= {"ub", "lb", "eps", "schedule", "station_index", "infrastructure", "np", "self"}:
+                raise AnalysisError(f"max_feasible_rate: the search that produces the returned value `{s}` is not one the rule reads")
             ck.violation("C07.R3", mf, r.stmt, f"max_feasible_rate returns `{s}`: only ub (proved feasible) or the bisection's lower end may be returned", sink="mfr:return")
     pre = [n for n in ml.cfg.nodes if n.kind == "raise"]
     ck.require(any(any(is_feasible_call(a) and not t for a, t in facts_through_temps(ml, r)) for r in pre), "C07.R3", mf, "initial feasibility check", ok="refuses to search from an infeasible schedule",
